@@ -204,9 +204,19 @@ func twinRuns(t *testing.T, k int) bool {
 		"for { x = 1 }", // (a shared VARIABLE is fine; a shared container written by both runs would be the script's own race)
 		"module a {\nmodule b {\nfor true { }\n}\n}",
 		"c = make(chan int64)\n<-c",
+		// the first call is blocked on a channel of the host; the second wants to close / use that channel
+		// (closing a channel another call is blocked SENDING on is a race of the two scripts - the race detector
+		// says so - and is not part of this leg)
+		"hc <- 1|hc <- 2",
+		"for v in hc { }|close(hc)\nfor { }",
 	}
 	src := progs[k%len(progs)]
+	srcB := src
+	if i := strings.Index(src, "|"); i >= 0 {
+		src, srcB = src[:i], src[i+1:]
+	}
 	e := env.NewEnv()
+	e.Define("hc", make(chan int64))
 	ctxA, cancelA := context.WithCancel(context.Background())
 	ctxB, cancelB := context.WithCancel(context.Background())
 	defer cancelA()
@@ -214,7 +224,7 @@ func twinRuns(t *testing.T, k int) bool {
 	doneA, doneB := make(chan error, 1), make(chan error, 1)
 	go func() { _, err := vm.ExecuteContext(ctxA, e, nil, src); doneA <- err }()
 	time.Sleep(2 * time.Millisecond)
-	go func() { _, err := vm.ExecuteContext(ctxB, e, nil, src); doneB <- err }()
+	go func() { _, err := vm.ExecuteContext(ctxB, e, nil, srcB); doneB <- err }()
 	time.Sleep(2 * time.Millisecond)
 	cancelB()
 	select {
@@ -254,8 +264,8 @@ func TestRaceC02(t *testing.T) {
 		}
 		unwinds++
 	}
-	for k := 0; k < 6; k++ {
-		twinRuns(t, k+next(6))
+	for k := 0; k < 11; k++ {
+		twinRuns(t, k)
 	}
 	fmt.Printf("deep unwinds took %v\n", time.Since(t0))
 	end = time.Now().Add(d) // the racing rounds keep their full budget
@@ -421,6 +431,19 @@ func TestRaceC01(t *testing.T) {
 				b.WriteString("try {\n" + c01Battery(next(c01Batteries), u, fmt.Sprintf("%d_%d", g, j)) + "\n} catch e { nerr <- 1 }\n")
 			}
 			b.WriteString("}()\n")
+		}
+		if round%16 == 5 {
+			// a module declared inside a function body; its functions use a variable of that body, from two goroutines
+			b.WriteString("func mhost(n) {\nmcnt = 0\nmdn = make(chan int64, 3)\nmodule mi {\nfunc bump(k) {\nfor q = 0; q < k; q++ { mcnt = mcnt + 1 }\nmdn <- 1\n}\n}\ngo mi.bump(n)\ngo mi.bump(n)\nmi.bump(n)\n<-mdn\n<-mdn\n<-mdn\nreturn mcnt > 0\n}\nmhost(6000)\n")
+		}
+		if round%16 == 9 {
+			// a module and a copy of it (assignment copies), first written to by two goroutines at the same time:
+			// they are different scopes
+			var vs strings.Builder
+			for i := 0; i < 120; i++ {
+				fmt.Fprintf(&vs, "v%d = %d\n", i, i)
+			}
+			b.WriteString("module bigm {\n" + vs.String() + "}\nfor mr = 0; mr < 150; mr++ {\nmcp = bigm\nmd = make(chan int64, 2)\ngo func() { bigm.v0 = mr; md <- 1 }()\ngo func() { mcp.v1 = mr; md <- 1 }()\n<-md\n<-md\n}\n")
 		}
 		if round%16 == 3 {
 			// a VARIABLE (not a container) of the enclosing scope, assigned values of changing kinds by one goroutine
